@@ -353,6 +353,10 @@ start:
 					// Pointer arithmetic can turn nil pointers into non-nil
 					// ones and vice versa.
 					s.setOuter(v, MaybeNil)
+				case "recover":
+					// recover returns nil unless the goroutine is panicking; we know
+					// nothing about the recovered value.
+					s.set(v, ValueNilness{Inner: MaybeNil, Outer: MaybeNil})
 				case "ssa:deferstack":
 					s.setOuter(v, NeverNil)
 				case "ssa:wrapnilchk":
